@@ -1,7 +1,7 @@
 CONSTANTS
   Codecs = {"cachecontrol", "basic", "authparam", "options2231"}
   Law = "nf"
-  Lens <- LenNfQ
+  Lens <- LenNfXT
   Items <- ItemsQ
 INIT Init
 NEXT Next
